@@ -1424,9 +1424,11 @@ func TestZZVerifC15RefreshTrace(t *testing.T) {
 		nTraces, _ = strconv.Atoi(s)
 	}
 
-	only := -1
-	if s := zzGetenv("VERIF_ONLY"); s != "" {
-		only, _ = strconv.Atoi(s)
+	only := map[int]bool{}
+	for _, s := range strings.Split(zzGetenv("VERIF_ONLY"), ",") {
+		if n, err := strconv.Atoi(s); err == nil {
+			only[n] = true
+		}
 	}
 
 	shard, shards := 0, 1
@@ -1442,7 +1444,7 @@ func TestZZVerifC15RefreshTrace(t *testing.T) {
 
 	names := []string{"b1", "b2", "a1", "a2"}
 	for tr := 0; tr < nTraces; tr++ {
-		if only >= 0 && tr != only || tr%shards != shard {
+		if len(only) > 0 && !only[tr] || tr%shards != shard {
 			continue
 		}
 
